@@ -13,7 +13,7 @@ SCOPE = ('each built-in observation function on worlds of distinct token cells w
          'once), symbolic agent pose and symbolic view area: every observation cell is Hidden or IS (identity) the token of the world '
          'cell given by an explicit rotation formula, out-of-grid cells are Hidden, shape/anchor/heading/held item as documented')
 BOUNDS = {
-    'quick': dict(worlds='1x1, 1x2, 2x2 with every view area with ymin,ymax in [-2,1], xmin,xmax in [-2,2]; 1x3, 3x2, 3x4 with 9 selected areas (symmetric, asymmetric, off-centre, agent outside the view); '
+    'quick': dict(box_contents='2x2 worlds differing only in the content of one box (4 contents), observed one after the other or the box replaced in place', worlds='1x1, 1x2, 2x2 with every view area with ymin,ymax in [-2,1], xmin,xmax in [-2,2]; 1x3, 3x2, 3x4 with 9 selected areas (symmetric, asymmetric, off-centre, agent outside the view); '
                   'partially_occluded: agent on the bottom row of the view; ray functions: agent inside the view', poses='every cell x 4 headings',
                   opacity='symbolic per world cell', draws='stochastic_raytracing: every draw a symbolic real in [0,1); views of at most 6 cells (each view cell forks on its draw)'),
     'thorough': dict(worlds='small worlds up to 2x3 with every area of the box; 1x4, 3x2, 3x4, 4x4 with 13 selected areas up to 5x5', views='see worlds', poses='every cell x 4 headings', opacity='symbolic', draws='symbolic'),
